@@ -36,3 +36,13 @@ func For(n int, stop func() bool, f func(i int)) {
 	}
 	wg.Wait()
 }
+
+// Serial is For on a single worker.
+func Serial(n int, stop func() bool, f func(i int)) {
+	for i := 0; i < n; i++ {
+		if stop != nil && stop() {
+			return
+		}
+		f(i)
+	}
+}
